@@ -167,3 +167,157 @@ Theorem C19_ReadBegin_from_source :
        else ([], t, wrapu 16 x, 0, [(Gen_thriftbin.Eff_ReadByte, []); (Gen_thriftbin.Eff_ReadI16, [])])).
 Proof. split; [exact ReadMapBegin_spec | intros; apply ReadFieldBegin_spec; assumption]. Qed.
 Print Assumptions C19_ReadBegin_from_source.
+
+(* ================================================================== generic Go values WITH a descriptor, algorithm level *)
+(* model/ThriftAnyDesc.v transcribes BinaryProtocol.WriteAnyWithDesc / ReadAnyWithDesc AS CODED (type dispatch on the descriptor,
+   internal/primitive conversions of the cast mode, struct members by id or by name, unknown members, container headers from the
+   descriptor, Go maps as association lists in iteration order, map keys as the code produces them); checks 1925 / 1926 compare
+   it with the implementation byte for byte and value for value. [gval_of u8 byname d v] is the Go value that stands for the wire
+   value v under descriptor d: a BYTE is int8 (uint8 when u8), a struct is map[FieldID] (map[string] keyed by field key when
+   byname), string-keyed maps are map[string], integer-keyed maps map[int] (a BYTE key as 0..255), other maps
+   map[interface{}] with container keys behind pointers. The theorems hold for every order of members / entries because the
+   order of v IS the iteration order. *)
+From DG Require Import ThriftAnyDesc ThriftAnyDescProofs.
+From DG Require Requireness RequirenessProofs.
+
+(* (T1) the written bytes are the standard encoding: for every conforming value, every option setting, every member order *)
+Theorem C19_write_any_desc_refines_encode :
+  forall cast dis byname u8 v d n b,
+  wf v = true -> conf true d v = true -> bools01 v = true -> (byname = true -> names_ok d = true) -> (depth v <= n)%nat ->
+  write_any_desc cast dis byname n d b (gval_of u8 byname d v) = (b ++ encode v, 0).
+Proof. exact write_any_desc_refines_encode. Qed.
+Print Assumptions C19_write_any_desc_refines_encode.
+
+(* (T2) the reader answers that Go value and stands right behind the value; fields the descriptor does not declare are
+   skipped (conf false) unless disallowUnknown (conf true); [gfresh]: no map of the answer holds a key twice *)
+Theorem C19_read_any_desc_refines_decode :
+  forall u8 dis byname v d n r,
+  wf v = true -> conf dis d v = true -> gfresh (gval_of u8 byname d v) = true ->
+  (depth v <= n)%nat -> (depth v <= S max_skip_depth)%nat ->
+  read_any_desc u8 dis byname n d (encode v ++ r) = Some (gval_of u8 byname d v, r).
+Proof. exact read_any_desc_refines_decode. Qed.
+Print Assumptions C19_read_any_desc_refines_decode.
+
+(* (T3) reader after writer is the identity on Go values; the options change the presentation only in that a BYTE comes back
+   as uint8 iff byteAsUint8, whatever it was written from (u8w / u8r); useFieldName is the same on both sides *)
+Theorem C19_read_write_any_desc :
+  forall cast dis_w dis_r byname u8w u8r v d n r,
+  wf v = true -> conf true d v = true -> bools01 v = true -> (byname = true -> names_ok d = true) ->
+  gfresh (gval_of u8r byname d v) = true -> (depth v <= n)%nat -> (depth v <= S max_skip_depth)%nat ->
+  exists out, write_any_desc cast dis_w byname n d [] (gval_of u8w byname d v) = (out, 0) /\ out = encode v /\
+              read_any_desc u8r dis_r byname n d (out ++ r) = Some (gval_of u8r byname d v, r).
+Proof. exact read_write_any_desc. Qed.
+Print Assumptions C19_read_write_any_desc.
+
+(* (T4) the error side: a Go value of a kind the descriptor's case does not accept (cast off) is an error and nothing is
+   written; a member / field the descriptor does not declare is an error iff disallowUnknown *)
+Theorem C19_write_kind_mismatch :
+  forall dis byname n d b g, gkind_ok byname d g = false -> write_any_desc false dis byname (S n) d b g = (b, 1).
+Proof. exact write_kind_mismatch. Qed.
+Print Assumptions C19_write_kind_mismatch.
+
+Theorem C19_unknown_member :
+  (forall cast dis n fs b id x ms, afby_id id fs = None ->
+     write_any_desc cast dis false (S n) (AStruct fs) b (GStructN ((id, x) :: ms)) =
+     if dis then (b, 1) else write_any_desc cast dis false (S n) (AStruct fs) b (GStructN ms)) /\
+  (forall cast dis n fs b nm x ms, afby_name nm fs = None ->
+     write_any_desc cast dis true (S n) (AStruct fs) b (GMapS ((nm, x) :: ms)) =
+     if dis then (b, 1) else write_any_desc cast dis true (S n) (AStruct fs) b (GMapS ms)) /\
+  (forall u8 byname n dfs t id rest, type_valid t = true -> t <> 0 -> in_sb 16 id = true -> afby_id (id mod 65536) dfs = None ->
+     read_any_desc u8 true byname (S n) (AStruct dfs) (t :: enc_int 2 id ++ rest) = None).
+Proof.
+  split; [exact write_unknown_member_id|]. split; [exact write_unknown_member_name | exact read_unknown_field_disallowed].
+Qed.
+Print Assumptions C19_unknown_member.
+
+(* (T5) WriteDefaultOrEmpty writes the encoding of the declared default, else of the zero value (model and proof shared with C16) *)
+Theorem C19_write_default_or_empty :
+  forall p f v, Requireness.default_or_zero p f = Some v -> Requireness.write_default_or_empty p f = Some (encode v).
+Proof. exact RequirenessProofs.write_default_or_empty_encode. Qed.
+Print Assumptions C19_write_default_or_empty.
+
+Example ex_ad_desc : adesc :=
+  AStruct [ (1, [97], AScalar T_I32);
+            (2, [98], AMap (AScalar T_BYTE) (AList (AString true)));
+            (3, [99], AMap (AStruct [(1, [107], AScalar T_BOOL)]) (AScalar T_DOUBLE));
+            (4, [100], ASet (AScalar T_BYTE)) ].
+(* members in an order that is not the declaration order, a negative BYTE key, a struct key, an undeclared field (id 9) *)
+Example ex_ad_val (unknown : bool) : tval :=
+  VStruct ([ (3, VMap T_STRUCT T_DOUBLE [(VStruct [(1, VBool 1)], VDouble 4607182418800017408)]);
+             (2, VMap T_BYTE T_LIST [(VByte (-1), VList T_STRING [VString [104; 105]]); (VByte 7, VList T_STRING [])]) ]
+           ++ (if unknown then [(9, VList T_I64 [VI64 5])] else []) ++
+           [ (4, VSet T_BYTE [VByte (-128)]); (1, VI32 (-7)) ]).
+Example ex_ad_hyps :
+  wf (ex_ad_val false) = true /\ conf true ex_ad_desc (ex_ad_val false) = true /\ bools01 (ex_ad_val false) = true /\
+  names_ok ex_ad_desc = true /\ gfresh (gval_of true true ex_ad_desc (ex_ad_val false)) = true /\
+  conf true ex_ad_desc (ex_ad_val true) = false /\ conf false ex_ad_desc (ex_ad_val true) = true.
+Proof. vm_compute. repeat split; reflexivity. Qed.
+Example ex_ad_gval :
+  gval_of false false ex_ad_desc (ex_ad_val true) =
+  GStructN [ (3, GMapA [(GPtr (GStructN [(1, GBool true)]), GF64 4607182418800017408)]);
+             (2, GMapI GT_INT [(255, GList [GBytes [104; 105]]); (7, GList [])]);
+             (4, GList [GInt GT_I8 (-128)]); (1, GInt GT_I32 (-7)) ].
+Proof. vm_compute. reflexivity. Qed.
+Example ex_ad_write :
+  write_any_desc false true true 4 ex_ad_desc [] (gval_of true true ex_ad_desc (ex_ad_val false)) = (encode (ex_ad_val false), 0).
+Proof. vm_compute. reflexivity. Qed.
+Example ex_ad_read_skips_unknown :
+  read_any_desc false false false 4 ex_ad_desc (encode (ex_ad_val true) ++ [1; 2]) =
+    Some (gval_of false false ex_ad_desc (ex_ad_val true), [1; 2]) /\
+  read_any_desc false true false 4 ex_ad_desc (encode (ex_ad_val true) ++ [1; 2]) = None.
+Proof. vm_compute. split; reflexivity. Qed.
+(* cast mode: a non-zero fraction is true, a float is truncated toward zero, an integer is rounded to the nearest double *)
+Example ex_ad_cast :
+  write_any_desc true false false 2 (AScalar T_BOOL) [] (GF64 4602678819172646912) = ([1], 0) /\
+  write_any_desc true false false 2 (AScalar T_I16) [] (GF64 13832806255468478464) = ([255; 255], 0) /\
+  write_any_desc true false false 2 (AScalar T_DOUBLE) [] (GInt GT_I64 9007199254740993) = ([67; 64; 0; 0; 0; 0; 0; 0], 0) /\
+  write_any_desc false false false 2 (AScalar T_BOOL) [] (GF64 4602678819172646912) = ([], 1).
+Proof. vm_compute. repeat split; reflexivity. Qed.
+
+(* ================================================================== generic Go values WITHOUT a descriptor, algorithm level *)
+(* model/ThriftAnyFree.v transcribes BinaryProtocol.WriteAny / ReadAny / GoType2ThriftType as coded (Go type dispatch: bool, the
+   integer kinds, float32/float64, string, []byte, []interface{}, map[string] / map[intN] / map[interface{}] with pointer keys,
+   map[FieldID] structs; header types taken from the first element; empty containers refused; options strAsBinary / byteAsInt8;
+   sliceAsSet changes no byte); checks 1927 / 1928 compare it with the implementation. *)
+From DG Require Import ThriftAnyFree ThriftAnyFreeProofs.
+
+(* ReadAny on the encoding of EVERY well-formed value answers its Go presentation and stands right behind it *)
+Theorem C19_read_free_refines_decode :
+  forall strbin i8 v n r,
+  wf v = true -> hdrs_ok v = true -> gfresh (gval_free strbin i8 v) = true -> (depth v <= n)%nat ->
+  read_any_free strbin i8 n (type_of v) (encode v ++ r) = Some (gval_free strbin i8 v, r).
+Proof. exact read_free_refines_decode. Qed.
+Print Assumptions C19_read_free_refines_decode.
+
+(* WriteAny of that presentation appends exactly the standard encoding, for the values WriteAny can express (free_ok: no empty
+   container, no set below the top, integer-keyed maps with I64 keys), every member / entry order *)
+Theorem C19_write_free_refines_encode :
+  forall sb i8 v n b,
+  wf v = true -> free_ok v = true -> bools01 v = true -> (depth v <= n)%nat ->
+  write_free n b (gval_free sb i8 v) = (b ++ encode v, 0).
+Proof. exact write_free_refines_encode. Qed.
+Print Assumptions C19_write_free_refines_encode.
+
+Theorem C19_read_write_free :
+  forall sb i8 v n r,
+  wf v = true -> free_ok v = true -> hdrs_ok v = true -> bools01 v = true -> gfresh (gval_free sb i8 v) = true -> (depth v <= n)%nat ->
+  exists out, write_free n [] (gval_free sb i8 v) = (out, 0) /\ out = encode v /\
+              read_any_free sb i8 n (type_of v) (out ++ r) = Some (gval_free sb i8 v, r).
+Proof. exact read_write_free. Qed.
+Print Assumptions C19_read_write_free.
+
+Example ex_free_val : tval :=
+  VStruct [ (2, VMap T_I64 T_LIST [(VI64 (-5), VList T_STRING [VString [120]])]);
+            (1, VMap T_STRUCT T_BYTE [(VStruct [(7, VDouble 0)], VByte (-2))]); (300, VBool 1) ].
+Example ex_free_hyps :
+  wf ex_free_val = true /\ free_ok ex_free_val = true /\ hdrs_ok ex_free_val = true /\ bools01 ex_free_val = true /\
+  gfresh (gval_free false true ex_free_val) = true /\
+  gval_free false true ex_free_val =
+    GStructN [ (2, GMapI GT_INT [(-5, GList [GStr [120]])]); (1, GMapA [(GPtr (GStructN [(7, GF64 0)]), GInt GT_I8 (-2))]); (300, GBool true) ] /\
+  write_free 4 [] (gval_free false true ex_free_val) = (encode ex_free_val, 0).
+Proof. vm_compute. repeat split; reflexivity. Qed.
+(* as coded: an empty slice is refused, a nil element panics (status 3), map[int] keys are written as I64 whatever the reader saw *)
+Example ex_free_quirks :
+  write_free 3 [] (GList []) = ([], 1) /\ write_free 3 [] (GList [GNil]) = ([], 3) /\
+  write_free 3 [] (GMapI GT_INT [(1, GBool true)]) = ([10; 2; 0; 0; 0; 1; 0; 0; 0; 0; 0; 0; 0; 1; 1], 0).
+Proof. vm_compute. repeat split; reflexivity. Qed.
